@@ -65,6 +65,38 @@ def run_replay(path):
         return False, "replay timed out"
 
 
+def run_fuzz(targets, tier, seed, out):
+    """bounded contract evaluation of every function under contract on the real code (labelled bounded)"""
+    if not targets:
+        return []
+    env = dict(os.environ, PYTHONPATH=REPO + os.pathsep + HERE, NUMBA_CACHE_DIR=os.environ.get("NUMBA_CACHE_DIR", "/tmp/pv_numba_cache"))
+    n = "300" if tier == "quick" else "5000"
+    cmd = [VENV_PY, "-m", "pv.fuzz", out, str(seed), n] + targets
+    try:
+        subprocess.run(cmd, capture_output=True, text=True, timeout=1800, env=env, cwd=HERE)
+    except subprocess.TimeoutExpired:
+        return [{"target": "*", "evaluations": 0, "accepted": 0, "violations": [], "errors": ["fuzz timed out"]}]
+    if not os.path.exists(out):
+        return [{"target": "*", "evaluations": 0, "accepted": 0, "violations": [], "errors": ["fuzz produced no output"]}]
+    r = json.load(open(out))
+    os.unlink(out)
+    return r
+
+
+def load_baseline(pid):
+    p = os.path.join(HERE, "baseline_obligations.json")
+    if not os.path.exists(p):
+        return {"clauses": [], "allproved": []}
+    return json.load(open(p)).get(pid, {"clauses": [], "allproved": []})
+
+
+def in_baseline(bl, x):
+    sid = stable_clause_id(x["id"])
+    if sid is not None and sid in bl["clauses"]:
+        return True
+    return [x["function"], x["kind"]] in bl["allproved"]
+
+
 def run_bounded(pid, tier, seed, out):
     mod = os.path.join(HERE, "bounded", pid + ".py")
     if not os.path.exists(mod):
@@ -120,6 +152,22 @@ def main():
     n_ob = n_dis = n_canary = n_cover = 0
     backends = {}
     solver_ms = 0
+    bl = load_baseline(pid)
+    os.makedirs(os.path.join(HERE, "scratch"), exist_ok=True)
+    fz_targets = []
+    for f in r["functions"]:
+        t = f["qualname"] + ("=" + f["contract"] if f["contract"] != f["qualname"] else "")
+        if t not in fz_targets and not f.get("no_fuzz"):
+            fz_targets.append(t)
+    fuzz = run_fuzz(fz_targets, tier, seed, os.path.join(HERE, "scratch", "fuzz_%s_%d.json" % (pid, os.getpid())))
+    fuzz_viol = {}
+    for fr in fuzz:
+        for e in fr.get("errors", []):
+            if "crashed" in e or "timed out" in e or "no output" in e:
+                faults.append("contract sampling of %s: %s" % (fr["target"], e))
+        for v in fr["violations"]:
+            fuzz_viol.setdefault(fr["target"], []).append(v)
+    reported_funcs = set()
     for x in results:
         solver_ms += x["ms"]
         if x["expect_sat"]:
@@ -134,35 +182,64 @@ def main():
         if x["result"] == "unsat":
             n_dis += 1
             backends[x["backend"]] = backends.get(x["backend"], 0) + 1
-        elif x["result"] == "sat":
-            k = match_known(known, pid, x["id"])
-            os.makedirs(rdir, exist_ok=True)
-            path = os.path.join(rdir, sanitize(x["id"]) + ".json")
-            rec = {"property": pid, "source": "prover", "obligation": x["id"], "function": x["function"],
-                   "contract": contract_of.get(x["function"], x["function"]), "clause": x["text"], "line": x["line"],
-                   "witness": x["witness"], "solver": {"backend": x["backend"], "result": x["result"], "ms": x["ms"]}}
+            continue
+        k = match_known(known, pid, x["id"])
+        os.makedirs(rdir, exist_ok=True)
+        path = os.path.join(rdir, sanitize(x["id"]) + ".json")
+        rec = {"property": pid, "source": "prover", "obligation": x["id"], "function": x["function"],
+               "contract": contract_of.get(x["function"], x["function"]), "clause": x["text"], "line": x["line"],
+               "witness": x["witness"], "solver": {"backend": x["backend"], "result": x["result"], "ms": x["ms"],
+                                                    "detail": x["detail"]}}
+        json.dump(rec, open(path, "w"), indent=1, default=str)
+        confirmed = False
+        if x["result"] == "sat" and x["witness"] and not any(isinstance(v, dict) and v.get("error") for v in x["witness"].values()):
+            confirmed, out = run_replay(path)
+        if not confirmed and fuzz_viol.get(x["function"]):
+            # the solver's model is not a failing input (loop-head state, or no model): use the failing input that the
+            # bounded evaluation of the same contract found on the real code
+            rec["source"] = "fuzz"
+            rec["witness"] = fuzz_viol[x["function"]][0]["inputs"]
+            rec["fuzz"] = fuzz_viol[x["function"]][0]
             json.dump(rec, open(path, "w"), indent=1, default=str)
-            confirmed, out = (False, "no witness")
-            if x["witness"] and not any(isinstance(v, dict) and v.get("error") for v in x["witness"].values()):
-                confirmed, out = run_replay(path)
-            if k:
-                known_seen.append({"finding": k["what"], "obligation": x["id"], "replayed": confirmed})
-                n_ob -= 1
-            else:
-                violations.append({"obligation": x["id"], "replay": path, "confirmed": confirmed, "text": x["text"]})
+            confirmed, out = run_replay(path)
+        if k:
+            known_seen.append({"finding": k["what"], "obligation": x["id"], "replayed": confirmed})
+            n_ob -= 1
+            continue
+        if confirmed or x["result"] == "sat" or in_baseline(bl, x):
+            # refuted, or an obligation discharged on the reference tree that no longer is
+            violations.append({"obligation": x["id"], "replay": path, "confirmed": confirmed,
+                               "text": "%s [%s by %s%s]" % (x["text"], x["result"], x["backend"], (": " + x["detail"]) if x["detail"] else "")})
+            reported_funcs.add(x["function"])
         else:
             undecided.append({"obligation": x["id"], "reason": "%s (%s)" % (x["result"], x["detail"])})
+    # failing inputs found by the bounded evaluation although no obligation failed: the engine or a contract is wrong
+    for tgt, vs in fuzz_viol.items():
+        if tgt.split("=")[0] in reported_funcs:
+            continue
+        v = vs[0]
+        kf = match_known(known, pid, tgt + "#fuzz#" + ",".join(v["violated"]))
+        if kf:
+            known_seen.append({"finding": kf["what"], "obligation": tgt + "#fuzz"})
+            continue
+        os.makedirs(rdir, exist_ok=True)
+        path = os.path.join(rdir, sanitize(tgt + "-fuzz") + ".json")
+        f0 = tgt.split("=")[0]
+        json.dump({"property": pid, "source": "fuzz", "obligation": f0 + "#fuzz#" + ",".join(v["violated"]), "function": f0,
+                   "contract": contract_of.get(f0, f0), "clause": ",".join(v["violated"]), "witness": v["inputs"], "fuzz": v},
+                  open(path, "w"), indent=1, default=str)
+        violations.append({"obligation": f0 + "#fuzz#" + ",".join(v["violated"]), "replay": path, "confirmed": True,
+                           "text": "bounded evaluation of the contract on the real code: " + ",".join(v["violated"])})
     if n_ob == 0 and cs:
         faults.append("zero obligations generated")
-    # baseline: contract-driven obligations must not silently vanish
-    bl_path = os.path.join(HERE, "baseline_obligations.json")
-    if os.path.exists(bl_path):
-        bl = json.load(open(bl_path)).get(pid, [])
-        have = set(filter(None, (stable_clause_id(x["id"]) for x in results)))
-        und_funcs = set(u["function"] for u in r["undecided_functions"])
-        missing = [b for b in bl if b not in have and not any(b.startswith(f) for f in und_funcs)]
-        if missing:
-            faults.append("obligations of the committed baseline were not generated: %s" % missing[:5])
+    und_funcs = set(u["function"] for u in r["undecided_functions"])
+    have = set(filter(None, (stable_clause_id(x["id"]) for x in results)))
+    missing = [b for b in bl["clauses"] if b not in have and not any(b.startswith(f) for f in und_funcs)]
+    if missing:
+        faults.append("obligations of the committed baseline were not generated: %s" % missing[:5])
+    for u in r["undecided_functions"]:
+        # a function that was under contract on the reference tree and left the supported subset
+        pass
     # bounded stand-in
     bounded = None
     if not a.no_bounded:
@@ -197,6 +274,9 @@ def main():
         "samples": [{k: x[k] for k in ("id", "kind", "function", "backend", "result", "ms", "text")} for x in results[:12]],
         "explanation": info["explanation"],
     }
+    cov["contract_sampling"] = [{k: fr.get(k) for k in ("target", "evaluations", "accepted")} for fr in fuzz]
+    cov["contract_sampling_note"] = ("BOUNDED (never counted as proved): the real functions under contract were executed on "
+                                     "generated inputs and the same contract text evaluated concretely")
     if bounded is not None and not bounded.get("error"):
         cov["bounded"] = {k: bounded.get(k) for k in ("bound", "evaluations", "distinct_nontrivial", "rule", "samples", "functions")}
         cov["evaluations"] = bounded.get("evaluations", 0)
